@@ -170,7 +170,6 @@ impl<'a> GeneratorState<'a> {
                 signed = *s;
             },
             ExprType::X => {
-                if acc_in_use { self.sasm(PHA)?; }
                 // Optimization in case of or 0
                 if let Operation::Or(_) = op {
                     if let ExprType::Immediate(v) = right2 {
@@ -178,11 +177,11 @@ impl<'a> GeneratorState<'a> {
                         else if high_byte && (v & 0xff00) == 0 { return Ok(ExprType::X); }
                     }
                 }
+                if acc_in_use { self.sasm(PHA)?; }
                 self.sasm(TXA)?;
                 signed = false;
             },
             ExprType::Y => {
-                if acc_in_use { self.sasm(PHA)?; }
                 // Optimization in case of or 0
                 if let Operation::Or(_) = op {
                     if let ExprType::Immediate(v) = right2 {
@@ -190,6 +189,7 @@ impl<'a> GeneratorState<'a> {
                         else if high_byte && (v & 0xff00) == 0 { return Ok(ExprType::Y); }
                     }
                 }
+                if acc_in_use { self.sasm(PHA)?; }
                 self.sasm(TYA)?;
                 signed = false;
             },
@@ -533,6 +533,13 @@ impl<'a> GeneratorState<'a> {
                 } else if *v == 8 {
                     return Err(self.compiler_state.syntax_error("Operation too complex for the compiler. Please use an intermediate variable", pos));
                 } else {
+                    // Shifting by more than 8 bits leaves nothing: give back the accumulator saved above
+                    if acc_in_use {
+                        self.sasm(PLA)?;
+                    } else {
+                        self.acc_in_use = false;
+                    }
+                    self.flags = FlagsState::Unknown;
                     return Ok(ExprType::Immediate(0));
                 }
             },
